@@ -70,7 +70,14 @@ func plans(c *core.Ctx) []Plan {
 		with(base("restart", 2, 3, []string{"Low"}, 2), func(p *Plan) { p.MaxRestarts = 1; p.LateTicks = true; p.Policies = two }),
 		with(base("unreg", 2, 4, []string{"Low"}, 3), func(p *Plan) { p.Unreg = []int{3}; p.EarlyBlocks = true; p.MaxRestarts = 1; p.Policies = two }),
 		with(base("loss", 2, 3, []string{"Low"}, 2), func(p *Plan) { p.MaxLag = 2; p.Laggards = []int{2}; p.MaxLoss = 1; p.Policies = four }),
-		with(base("orders2", 2, 3, []string{"Low"}, 2), func(p *Plan) { p.MaxLag = 2; p.Laggards = []int{2}; p.MaxLoss = 1; p.Tickers = []int{0, 1}; p.Policies = []string{"any"}; p.Replay = 800 }),
+		with(base("orders2", 2, 3, []string{"Low"}, 2), func(p *Plan) {
+			p.MaxLag = 2
+			p.Laggards = []int{2}
+			p.MaxLoss = 1
+			p.Tickers = []int{0, 1}
+			p.Policies = []string{"any"}
+			p.Replay = 800
+		}),
 		with(base("reorg", 2, 3, []string{"none", "Low"}, 2), func(p *Plan) { p.MaxLag = 2; p.Laggards = []int{2}; p.AllowReorg = true; p.Replay = 1200 }),
 	}
 }
